@@ -58,13 +58,15 @@ ASSUMPTIONS = [
     'judged at 1e-6 is reported',
     'error draws are handed over in the column order the model publishes as index_to_key',
 ]
-MIN_DISTINCT = {'quick': 500, 'thorough': 4000}
-CASE_TIMEOUT = 300
+MIN_DISTINCT = {'quick': 500, 'thorough': 3000}
+CASE_TIMEOUT = 600
+# generous watchdogs (never a verdict): the machine is shared, a quick run costs ~5 CPU-minutes in total
+SHARD_TIMEOUT = {'quick': 3600, 'thorough': 6 * 3600}
 
-REPS = {'quick': 8, 'thorough': 40}
-N_RANDOM = {'quick': 400, 'thorough': 3000}
-N_LARGE = {'quick': 64, 'thorough': 400}
-DRAWS = {'quick': 6, 'thorough': 20}
+REPS = {'quick': 8, 'thorough': 24}
+N_RANDOM = {'quick': 400, 'thorough': 2000}
+N_LARGE = {'quick': 64, 'thorough': 300}
+DRAWS = {'quick': 6, 'thorough': 16}
 BRUTE_EVERY = {'quick': 6, 'thorough': 5}
 
 PIECE_VAL_RTOL = 1e-8
